@@ -174,6 +174,16 @@ func checkProgramOracle(res *Result, p dlProgram, o dlObs, prefix string) (deriv
 	inFragment := !out.exprError && !out.invalidRule && !out.setsInFacts
 	if !inFragment {
 		res.Dist("out-of-fragment")
+		// an expression that fails to evaluate for a tuple the join reaches (no earlier expression
+		// of the rule being false for it), or a head variable left unbound, must end the run with
+		// an error: success would mean the tuple was silently accepted or dropped
+		if o.Err == "" && (out.exprError || out.invalidRule) {
+			what := "an expression fails to evaluate"
+			if !out.exprError {
+				what = "a head variable is not bound by the body"
+			}
+			res.Violate(prefix+"error-swallowed", "run reported success although "+what+" for a tuple of the join", rep)
+		}
 		return
 	}
 	switch o.Err {
